@@ -315,22 +315,187 @@ fn space_minidump_modules(max_len: u32) -> Space {
     })
 }
 
+// --------------------------------------------------------------------------------------------
+// the URL half of the statement, observed at the wire: the real HttpSymbolSupplier is pointed at a server URL
+// with a root directory while the whole process sends its HTTP(S) traffic through a loopback proxy (the
+// *_proxy environment variables, set before the first client is built); every request the lookups of one
+// module cause is logged by the proxy, whatever host or scheme it is addressed to
+
+const TOKENS: [&str; 14] = ["a", ".", "..", "%2e", "%2E", ":", "https:", "http:", "/", "\\", "?", "#", "%", "@"];
+const WIRE_ROOT: &str = "/root/symbols/";
+
+static PROXY_CELL: std::sync::OnceLock<Proxy> = std::sync::OnceLock::new();
+struct Proxy {
+    port: u16,
+    log: std::sync::Arc<std::sync::Mutex<Vec<String>>>,
+}
+fn start_proxy() -> Proxy {
+    use std::io::{Read, Write};
+    let l = std::net::TcpListener::bind("127.0.0.1:0").expect("bind loopback");
+    let port = l.local_addr().unwrap().port();
+    let log: std::sync::Arc<std::sync::Mutex<Vec<String>>> = Default::default();
+    let log2 = log.clone();
+    std::thread::spawn(move || {
+        for c in l.incoming() {
+            let Ok(mut c) = c else { continue };
+            let log3 = log2.clone();
+            std::thread::spawn(move || {
+                let _ = c.set_read_timeout(Some(std::time::Duration::from_secs(30)));
+                let mut pending: Vec<u8> = vec![];
+                let mut buf = [0u8; 4096];
+                loop {
+                    while let Some(end) = pending.windows(4).position(|w| w == b"\r\n\r\n") {
+                        let head = String::from_utf8_lossy(&pending[..end]).to_string();
+                        pending.drain(..end + 4);
+                        log3.lock().unwrap().push(head.lines().next().unwrap_or("").to_string());
+                        if c.write_all(b"HTTP/1.1 404 Not Found\r\nContent-Length: 0\r\n\r\n").is_err() {
+                            return;
+                        }
+                    }
+                    match c.read(&mut buf) {
+                        Ok(0) | Err(_) => return,
+                        Ok(n) => pending.extend_from_slice(&buf[..n]),
+                    }
+                }
+            });
+        }
+    });
+    Proxy { port, log }
+}
+
+fn percent_decode_once(s: &str) -> String {
+    let b = s.as_bytes();
+    let mut out = vec![];
+    let mut i = 0;
+    while i < b.len() {
+        if b[i] == b'%' && i + 2 < b.len() + 0 && i + 2 <= b.len() - 1 + 0 {
+            if let Ok(v) = u8::from_str_radix(&s[i + 1..i + 3], 16) {
+                out.push(v);
+                i += 3;
+                continue;
+            }
+        }
+        out.push(b[i]);
+        i += 1;
+    }
+    String::from_utf8_lossy(&out).to_string()
+}
+
+/// Why a logged request line leaves `http://127.0.0.1:<port>/root/symbols/` (None = it stays inside).
+fn wire_escape(line: &str, port: u16) -> Option<&'static str> {
+    let mut it = line.split(' ');
+    let (method, target) = (it.next().unwrap_or(""), it.next().unwrap_or(""));
+    if method != "GET" {
+        return Some("not-a-GET-to-the-server"); // e.g. CONNECT other-host:443
+    }
+    let prefix = format!("http://127.0.0.1:{port}");
+    let Some(path_q) = target.strip_prefix(&prefix) else { return Some("other-host-or-scheme") };
+    let path = path_q.split(['?', '#']).next().unwrap_or("");
+    let Some(rest) = path.strip_prefix(WIRE_ROOT) else { return Some("path-outside-the-root") };
+    for seg in rest.split('/') {
+        let d = percent_decode_once(seg);
+        if d == ".." || d == "." && false {
+            return Some("dot-dot-segment-for-the-server");
+        }
+    }
+    None
+}
+
+fn space_wire(max_len: u32) -> Space {
+    thread_local! {
+        static RT: tokio::runtime::Runtime = tokio::runtime::Builder::new_current_thread().enable_all().build().expect("runtime");
+        static SUP: std::cell::RefCell<Option<(breakpad_symbols::HttpSymbolSupplier, PathBuf)>> = const { std::cell::RefCell::new(None) };
+    }
+    let k = TOKENS.len() as u64;
+    let n_str = seq_count(k, max_len);
+    let radices = [n_str, 3];
+    let len = product(&radices);
+    let decode = move |idx: u64| {
+        let d = unrank(idx, &radices);
+        let s: String = seq_unrank(d[0], k, max_len).iter().map(|&t| TOKENS[t as usize]).collect();
+        (s, d[1])
+    };
+    let run = move |idx: u64, l: &mut Local| {
+        let proxy = PROXY_CELL.get().expect("proxy started in main");
+        let (name, which) = decode(idx);
+        let id: DebugId = "abcd1234-abcd-1234-abcd-abcd12345678-a".parse().expect("id");
+        let ids = (Some(id), Some(CodeId::new("5AB38FE2c000".into())));
+        let m = match which {
+            0 => simple_module(Some(name.clone()), "x.dll".into(), &ids),
+            1 => simple_module(Some("x.pdb".into()), name.clone(), &ids),
+            _ => simple_module(Some(name.clone()), name.clone(), &ids),
+        };
+        let expect_request = breakpad_sym_lookup(&m).is_some();
+        let before = proxy.log.lock().unwrap().len();
+        SUP.with(|cell| {
+            let mut c = cell.borrow_mut();
+            if c.is_none() {
+                let dir = std::env::temp_dir().join(format!("verif-c17-{}-{:?}", std::process::id(), std::thread::current().id()));
+                let _ = std::fs::remove_dir_all(&dir);
+                std::fs::create_dir_all(dir.join("cache")).expect("cache dir");
+                std::fs::create_dir_all(dir.join("tmp")).expect("tmp dir");
+                let sup = breakpad_symbols::HttpSymbolSupplier::new(vec![format!("http://127.0.0.1:{}{}", proxy.port, WIRE_ROOT)], dir.join("cache"), dir.join("tmp"), vec![], std::time::Duration::from_secs(20));
+                *c = Some((sup, dir));
+            }
+            let (sup, _) = c.as_ref().unwrap();
+            RT.with(|rt| {
+                rt.block_on(async {
+                    use breakpad_symbols::SymbolSupplier;
+                    let _ = sup.locate_symbols(&m).await;
+                    let _ = sup.locate_file(&m, FileKind::Binary).await;
+                    let _ = sup.locate_file(&m, FileKind::ExtraDebugInfo).await;
+                })
+            });
+        });
+        let lines: Vec<String> = proxy.log.lock().unwrap()[before..].to_vec();
+        l.eval();
+        if expect_request && lines.is_empty() {
+            l.outcome("lookup-without-any-request");
+        }
+        for line in &lines {
+            match wire_escape(line, proxy.port) {
+                None => l.outcome("request-inside-the-root"),
+                Some(why) => {
+                    l.outcome(&format!("request:{why}"));
+                    l.violation(format!("c17:request:{why}"), format!("a module named {name:?} makes the HTTP supplier send {line:?}, outside http://127.0.0.1:<port>{WIRE_ROOT}"), json!({"name": name, "field": (["debug_file", "code_file", "both"][which as usize]), "request_line": line}));
+                }
+            }
+        }
+        l.distinct(&("wire", name, which, lines.len()));
+    };
+    // one worker at a time: the proxy's log is attributed to the case by position
+    Space::new("requests-on-the-wire", len, run, move |idx| {
+        let (s, which) = decode(idx);
+        json!({"class": "requests-on-the-wire", "name": s, "field": (["debug_file", "code_file", "both"][which as usize])})
+    })
+    .chunked(len)
+}
+
 fn main() {
+    // before any HTTP client exists: the whole process talks HTTP(S) through the loopback proxy
+    let proxy = start_proxy();
+    for v in ["http_proxy", "https_proxy", "all_proxy", "HTTP_PROXY", "HTTPS_PROXY", "ALL_PROXY"] {
+        std::env::set_var(v, format!("http://127.0.0.1:{}", proxy.port));
+    }
+    std::env::remove_var("NO_PROXY");
+    std::env::remove_var("no_proxy");
+    let _ = PROXY_CELL.set(proxy);
     run_check("C17", |ctx| {
         let n = ctx.tier.pick(5, 6);
         let mut def = CheckDef::new(
             "C17",
             "exploration",
-            "bounded-exhaustive: every string of length <= N over {a . / \\ : C NUL é} as debug_file (code_file in {\"\", x.pdb, ../y}) and as code_file (debug_file in the same menu), every pair (debug_file absent or any string, code_file any string) of strings of length <= 3, each x 5 (debug id, code id) combinations, through breakpad_sym_lookup, extra_debuginfo_lookup, binary_lookup, lookup(module, kind) for the 3 FileKinds, moz_lookup of each of those, code_info_breakpad_sym_lookup; plus MinidumpModules read from synthesized dumps with every PDB name of length <= 3 x 4 module names, and MinidumpUnloadedModules. Every cache_rel / server_rel / path returned is judged textually (leading separator, X: prefix, `..` component under either separator) and, if textually clean, by Path::join onto a root + lexical normalisation. evaluations = lookup calls judged (2 per FileLookup); distinct_nontrivial = distinct (leaf of debug_file, leaf of code_file, id combination) among modules for which at least one lookup exists.",
+            "bounded-exhaustive: every string of length <= N over {a . / \\ : C NUL é} as debug_file (code_file in {\"\", x.pdb, ../y}) and as code_file (debug_file in the same menu), every pair (debug_file absent or any string, code_file any string) of strings of length <= 3, each x 5 (debug id, code id) combinations, through breakpad_sym_lookup, extra_debuginfo_lookup, binary_lookup, lookup(module, kind) for the 3 FileKinds, moz_lookup of each of those, code_info_breakpad_sym_lookup; plus MinidumpModules read from synthesized dumps with every PDB name of length <= 3 x 4 module names, and MinidumpUnloadedModules. Every cache_rel / server_rel / path returned is judged textually (leading separator, X: prefix, `..` component under either separator) and, if textually clean, by Path::join onto a root + lexical normalisation. The server-URL half is observed on the wire: the real HttpSymbolSupplier (server URL with a root directory) looks up symbols, binary and debug file of a module named by every sequence of <= 3 [thorough 4] tokens over {a . .. %2e %2E : https: http: / \\ ? # % @} (as debug_file, as code_file, as both) while the process sends all HTTP(S) traffic through a logging loopback proxy: every request must be a GET to the configured host whose path lies under the root and has no segment that percent-decodes to `..`. evaluations = lookup calls judged (2 per FileLookup); distinct_nontrivial = distinct (leaf of debug_file, leaf of code_file, id combination) among modules for which at least one lookup exists.",
         );
         def.assumptions = vec![
             "the oracle is textual and platform independent; `.` components, empty components (`a//b`), NUL bytes and non-ASCII inside a name are not escapes and are accepted".into(),
-            "a drive prefix is exactly `^[A-Za-z]:` (names such as `memfd:pulseaudio (deleted)` are legitimate module names); Url::join treating a longer `name:` first segment as a URL scheme is not asserted here".into(),
+            "a drive prefix is exactly `^[A-Za-z]:` (names such as `memfd:pulseaudio (deleted)` are legitimate module names); what a longer `name:` prefix does to the request URL is judged on the wire".into(),
             "identifiers are whatever debugid yields (hex digits only); their content cannot carry separators".into(),
         ];
         def.extra.insert("max_name_length".into(), json!(n));
         def.extra.insert("alphabet".into(), json!(["a", ".", "/", "\\", ":", "C", "NUL", "é"]));
-        def.spaces = vec![space_one_field("debug_file", true, n), space_one_field("code_file", false, n), space_pairs(3), space_suffixed(n - 1), space_minidump_modules(3)];
+        def.extra.insert("wire_tokens".into(), json!(TOKENS));
+        def.spaces = vec![space_one_field("debug_file", true, n), space_one_field("code_file", false, n), space_pairs(3), space_suffixed(n - 1), space_minidump_modules(3), space_wire(ctx.tier.pick(3, 4))];
         def
     })
 }
